@@ -54,6 +54,7 @@ class BuildStatus:
     gen_error: str = ""
     gen_errors: dict = field(default_factory=dict)   # generated file -> translation error (all files)
     gen_deps: dict = field(default_factory=dict)     # theorem -> generated files its proof term depends on
+    leanchecker: str = "not run (quick tier)"
     model_ok: bool = True
     model_log: str = ""
     proofs_ok: bool = True
@@ -165,6 +166,38 @@ def import_closure_generated(mod: str) -> set:
         if os.path.exists(p):
             todo += [x for x in re.findall(r"^import\s+(\S+)", open(p).read(), re.M) if x.startswith("Optyx")]
     return out
+
+
+def import_closure(mod: str) -> list:
+    """all Optyx.* modules in the transitive import closure of a module"""
+    seen, todo = set(), [mod]
+    while todo:
+        m = todo.pop()
+        if m in seen:
+            continue
+        seen.add(m)
+        p = os.path.join(LEAN_DIR, m.replace(".", "/") + ".lean")
+        if os.path.exists(p):
+            todo += [x for x in re.findall(r"^import\s+(\S+)", open(p).read(), re.M) if x.startswith("Optyx")]
+    return sorted(seen)
+
+
+def run_leanchecker(st: "BuildStatus", prop_module: str):
+    """thorough tier: re-check the compiled property module with the toolchain's independent checker
+    (`leanchecker` replays every declaration of the named modules through the kernel).  By default the
+    property module itself; VERIF_LEANCHECKER=full re-checks every Optyx module it imports (≈5 min)."""
+    mods = import_closure(prop_module) if os.environ.get("VERIF_LEANCHECKER") == "full" else [prop_module]
+    try:
+        rc, out = _run(["lake", "env", "leanchecker"] + mods, cwd=LEAN_DIR, timeout=3600)
+    except Exception as ex:  # noqa: BLE001
+        st.leanchecker = f"could not run: {ex!r}"[:200]
+        return
+    if rc == 0:
+        st.leanchecker = f"ok ({len(mods)} module(s))"
+    else:
+        st.leanchecker = "FAILED: " + out.strip()[-400:]
+        st.axioms_ok = False
+        st.proofs_log += "\nleanchecker: " + out.strip()[-1500:]
 
 
 def lean_prepare(prop_module: str, theorems: list[str], _attempt: int = 0) -> BuildStatus:
@@ -335,7 +368,7 @@ def write_evidence(prop: str, tier: str, seed: int, st: BuildStatus, rep: Report
         "theorems": st.theorems,
         "lean_build": {"generated_changed": st.gen_changed,
                        "generated_files_used_by_theorems": sorted({f for fs in st.gen_deps.values() for f in fs}),
-                       "translation_errors": st.gen_errors, "model_ok": st.model_ok, "proofs_ok": st.proofs_ok,
+                       "translation_errors": st.gen_errors, "leanchecker": st.leanchecker, "model_ok": st.model_ok, "proofs_ok": st.proofs_ok,
                        "axioms_ok": st.axioms_ok, "forbidden_tokens": st.grep_hits,
                        "failed_modules": st.failed_modules, "wall_s": round(st.wall_s, 2)},
         "evaluations": rep.evaluations,
